@@ -20,19 +20,41 @@ set / delete each key, add an in-basis / an out-of-basis key, re-use for the
 next mapping and estimate again) x {before, after} the first standard-error
 call; the estimate made first must keep the standard errors of the counts it
 was given.
+
+Fourth wave (domains/w4_c20.py): (c) the common factor as a LADDER: every 1-3
+subset mapping of the 5-descriptor sub-basis (3 shipped + 3 synthetic
+libraries) and one 3-descriptor mapping on each of the 66 further library files
+x 36 common factors (17 magnitudes 1e-12 .. 1e12, both signs, 0.0 and -0.0),
+judged with a purely relative tolerance against |RMSE| sqrt(x'Mx) and against
+|k| SE(x) - a standard error that is small because the counts are small is
+still a standard error; (d) libraries built BY HAND instead of by Load: all
+histories of <= 2 builds over 21 (route, source) letters - routes
+GroupLibrary(scheme) + Update, GroupLibrary(scheme, {}, {}) + Update,
+constructor arguments only, fresh Load; sources 2 shipped + 2 synthetic with
+uncertainty data, 1 shipped + 1 synthetic without - and all histories of 3
+Update-builds over the 3 synthetic sources, each history in ONE process
+(an interpreter of its own); after every build every library made so far must
+have the standard errors of ITS source's data (or none when the source has
+none), afterwards the sources too, and GroupLibrary(scheme) given nothing must
+carry no uncertainty data.
 """
 import itertools
+import json
 import math
 import os
+import subprocess
+import sys
 import tempfile
 
 import yaml
 
+from .. import VERIF
 from ..runner import Result
 from ..models import thermoref as tr
 from ..domains import estimates as E
 from ..domains import libs
 from ..domains import w3_c20 as W
+from ..domains import w4_c20 as W4
 
 LEVEL = 'exploration'
 BOUND = {t: '3 shipped + 3 synthetic libraries (one with an integer-valued matrix); all unit vectors x 3 counts; all '
@@ -48,21 +70,50 @@ BOUND = {t: '3 shipped + 3 synthetic libraries (one with an integer-valued matri
             'sub-basis (6 libraries) x every single-step edit of the mapping '
             '(clear, scale, set/delete each key, add in-basis / out-of-basis '
             'key, re-use for the next mapping) x {before, after} the first '
-            'standard-error call' for t in ('quick', 'thorough')}
+            'standard-error call; common-factor ladder: 36 factors (17 '
+            'magnitudes 1e-12..1e12 x both signs, 0.0, -0.0) x all 1-3 subsets '
+            'of the 5-descriptor sub-basis (6 libraries) and x %s on each of '
+            'the 66 further library files; hand-built libraries: all histories '
+            'of <= 2 builds over 21 (route, source) letters (4 routes x 6 '
+            'sources, fresh Load only for the 3 synthetic ones) + all '
+            'histories of 3 builds over %s, every library made so far observed '
+            'after every build (2 mappings x 3 getters at 500 K), sources and a '
+            'library constructed from nothing observed at the end' % (
+                ('one 3-descriptor mapping', '{default, explicit} x 3 synthetic '
+                 'sources (216)') if t == 'quick' else
+                ('a unit, a pair and a 3-descriptor mapping', '{default, '
+                 'explicit} x 3 synthetic sources and over {default, explicit, '
+                 'ctor} x 6 sources (5832)'))
+            for t in ('quick', 'thorough')}
 RULE = ('each mapping is estimated and the three standard-error getters are '
         'compared with |RMSE_X(T)| * sqrt(x\'Mx), x\'Mx summed in pure Python '
         'from the matrix rows read from the data file by the harness; '
         'non-trivial = more than one non-zero count, a non-unit count, a '
         'permuted key order or an out-of-basis variant; every caller-mapping '
         'case (Estimate(d), edit d, standard errors of the estimate against '
-        'the counts originally given) is non-trivial')
+        'the counts originally given) is non-trivial; every common-factor '
+        'case (mapping x factor, the three getters x 3 temperatures against the '
+        'quadratic form of the scaled counts and against |k| x the unscaled '
+        'standard error, relative tolerance) and every observation of a '
+        'hand-built library (one mapping on one library at one point of a '
+        'history) is non-trivial')
 ASSUMPTIONS = ['the basis order and matrix are read from uq.yaml / the library '
                'file with PyYAML by the harness itself',
                'for the synthetic library files the harness writes the '
                'file and judges with the basis order and matrix it wrote '
                '(a non-symmetric stored matrix is used as stored: x\'Mx = sum '
                'x_i M_ij x_j)',
-               'relative tolerance 1e-9']
+               'relative tolerance 1e-9 (with an absolute floor of 1e-9 in '
+               'the families of the first three waves; none in the '
+               'common-factor ladder, where the factor 0 must give exactly 0)',
+               'a hand-built library is judged with the basis order, matrix '
+               'and RMSE correlation of the source it was made from (RMSE '
+               'evaluated on the source as loaded, as everywhere else); that '
+               'GuSolventGA2017Aq / the synthetic plain file carry no '
+               'uncertainty data is read from the files by the harness',
+               'the hand-built histories of one shard share one child '
+               'interpreter; once a library constructed from nothing stops '
+               'being empty, later witnesses carry the history that did it']
 MANIFEST = dict(
     technique='exhaustive enumeration of count vectors over the uncertainty '
               'basis (all key orders, scalings, out-of-basis insertions) vs a '
@@ -76,8 +127,19 @@ MANIFEST = dict(
          'library files include every order of a 3-descriptor basis and '
          'stored matrices that are not symmetric; the caller\'s mapping is '
          'edited in every single-step way after Estimate() and the standard '
-         'errors must stay those of the counts originally given.',
-    note='Mappings with more than three non-zero counts are not enumerated.',
+         'errors must stay those of the counts originally given. A ladder '
+         'of 36 common factors from 1e-12 to 1e12 (and zero) is applied with a '
+         'purely relative oracle. Libraries assembled by hand - '
+         'GroupLibrary(scheme) + Update(), explicit empty arguments + '
+         'Update(), constructor arguments only, a fresh Load - are built one '
+         'after the other in one process in every order of <= 2 builds (3 for '
+         'the synthetic sources); each must have the standard errors of its '
+         'own source, a library made from a source without uncertainty data '
+         'must give none, and a library constructed from nothing must carry '
+         'none.',
+    note='Mappings with more than three non-zero counts are not enumerated; '
+         'common factors outside 1e-12 .. 1e12 are not enumerated '
+         '(far from where k^2 x\'Mx would leave the double range).',
     ref='5/C20')
 
 SCHEME = E.SCHEME
@@ -106,13 +168,16 @@ def _write_and_load(basis, mat, place='inline'):
     d = tempfile.mkdtemp(prefix='pgv_c20_')
     with open(os.path.join(d, 'scheme.yaml'), 'w') as f:
         f.write(SCHEME)
-    uq = dict(UQ=dict(
+    uq = basis and dict(UQ=dict(
         RMSE=dict(thermochem=dict(T_ref='298.15 K', ND_H_ref=-1.5, ND_S_ref=0.75,
                                   ND_Cp_data=[['300 K', 0.5], ['800 K', 0.25]],
                                   range=['250 K', '1000 K'])),
         DOF=7, InvCovMat=dict(groups=list(basis), mat=[list(r) for r in mat])))
     with open(os.path.join(d, 'library.yaml'), 'w') as f:
-        if place == 'inline':
+        if not basis:
+            # fourth wave: a library file without any uncertainty block
+            f.write(SYN_GROUPS)
+        elif place == 'inline':
             f.write(SYN_GROUPS + yaml.safe_dump(uq))
         else:
             # as the shipped libraries do: the block sits in an included file
@@ -136,6 +201,22 @@ def load(name):
     elif name.startswith('synx:'):
         basis, mat, place = W.spec(name)
         lib = _write_and_load(basis, mat, place)
+    elif name == 'synplain':
+        basis, mat = [], []
+        lib = _write_and_load(None, None)
+    elif name in W4.PLAIN_SOURCES:
+        basis, mat = [], []
+        lib = libs.load(name)
+        # "without uncertainty data" is read from the files by the harness:
+        # neither the library file nor anything it includes has a UQ block
+        # (GuSolventGA2017Aq ships a uq.yaml that its library.yaml never
+        # includes)
+        d = os.path.join(libs.data_dir(), name)
+        top = yaml.safe_load(open(os.path.join(d, 'library.yaml')))
+        assert 'UQ' not in top, name
+        for inc in top.get('include') or []:
+            sub = yaml.safe_load(open(os.path.join(d, inc)))
+            assert 'UQ' not in sub and not sub.get('include'), (name, inc)
     else:
         lib = libs.load(name)
         u = yaml.safe_load(open(os.path.join(libs.data_dir(), name, 'uq.yaml')))['UQ']
@@ -174,12 +255,15 @@ def check(R, name, items, tag):
     return observe(R, name, r[1], items, tag, wit)
 
 
-def observe(R, name, e, items, tag, wit, prefix='se-wrong'):
+TEMPS = (298.15, 500.0, 1000.0)
+
+
+def observe(R, name, e, items, tag, wit, prefix='se-wrong', temps=TEMPS):
     """The three getters x temperature grid of estimate `e` against the
     quadratic form of `items`."""
     lib, basis, mat = load(name)
     vals = []
-    for T in (298.15, 500.0, 1000.0):
+    for T in temps:
         for se, rmg in GETTERS:
             want, q = expected(lib, basis, mat, items, T, rmg)
             got = E.ev(getattr(e, se), T)
@@ -337,7 +421,264 @@ def check_mut(R, name, items, op, timing, other):
                     prefix='se-follows-callers-mapping')
 
 
+# ------------------------------------------- fourth wave: the common factor
+
+def factor_class(k):
+    return 'zero' if k == 0 else 'tiny' if abs(k) < 1 else 'huge'
+
+
+def ladder_bases(name, tier):
+    if name.startswith('synx:'):
+        lib, basis, mat = load(name)
+        out = [[(basis[0], 1), (basis[1], 2), (basis[2], -0.5)]]
+        if tier == 'thorough':
+            out += [[(basis[2], 0.217)], [(basis[1], 2), (basis[0], -1)]]
+        return out
+    return mut_bases(name)
+
+
+def check_factor(R, name, items, k, base=None):
+    """SE(k x) against |RMSE| sqrt((kx)'M(kx)) and against |k| SE(x), both
+    with a purely RELATIVE tolerance (1e-9 of the expected value; exactly 0 for
+    the factor 0): a standard error that is small because the counts are small
+    is still a standard error."""
+    lib, basis, mat = load(name)
+    wit = dict(kind='factor', lib=name, items=[list(i) for i in items], k=k)
+    cls = factor_class(k)
+    R.nontrivial += 1
+    if base is None:
+        r0 = E.ev(lib.Estimate, dict(items), 'thermochem')
+        R.evals += 1
+        if r0[0] != 'ok':
+            R.violation('estimate-raises:' + r0[1], '[%s] %r: Estimate raised %s'
+                        % (name, items, r0[1]), wit)
+            return
+        base = observe(R, name, r0[1], items, 'factor-base', wit)
+    scaled = [(g, c * k) for g, c in items]
+    r = E.ev(lib.Estimate, dict(scaled), 'thermochem')
+    R.evals += 1
+    if r[0] != 'ok':
+        R.outcomes['estimate-raises:' + r[1]] += 1
+        R.violation('estimate-raises:' + r[1], '[%s] %r: Estimate raised %s' % (
+            name, scaled, r[1]), wit)
+        return
+    n = 0
+    for T in TEMPS:
+        for se, rmg in GETTERS:
+            b = base[n]
+            n += 1
+            want, q = expected(lib, basis, mat, scaled, T, rmg)
+            got = E.ev(getattr(r[1], se), T)
+            R.evals += 1
+            if got[0] != 'ok':
+                R.outcomes['se-raises:' + got[1]] += 1
+                R.violation('se-raises:%s' % got[1], '[%s] %r: %s(%g) raised %s' % (
+                    name, scaled, se, T, got[1]), wit)
+                continue
+            v = got[1]
+            bad = []
+            if type(v) is not float or not (v >= 0) or \
+                    not abs(v - want) <= 1e-9 * want:
+                bad.append(('se-wrong', '|RMSE| sqrt(x\'Mx) = %r (x\'Mx = %r)'
+                            % (want, q)))
+            if b is not None and type(v) is float and \
+                    not abs(v - abs(k) * b) <= 1e-9 * abs(k) * b:
+                bad.append(('scaling-law', '|k| x SE(x) = %r (SE(x) = %r)'
+                            % (abs(k) * b, b)))
+            for key, what in bad:
+                R.outcomes['factor-' + key] += 1
+                R.violation('%s:%s:factor-%s' % (key, se, cls),
+                            '[%s] %r x common factor %r: %s(%g) = %r (%s), %s' % (
+                                name, items, k, se, T, v, type(v).__name__, what),
+                            wit)
+            if not bad:
+                R.outcomes['factor-%s-ok' % cls] += 1
+
+
+def run_factor(R, names, tier):
+    for name in names:
+        lib, basis, mat = load(name)
+        for items in ladder_bases(name, tier):
+            r0 = E.ev(lib.Estimate, dict(items), 'thermochem')
+            R.evals += 1
+            wit = dict(kind='factor', lib=name, items=[list(i) for i in items],
+                       k=1.0)
+            if r0[0] != 'ok':
+                R.violation('estimate-raises:' + r0[1], '[%s] %r: Estimate '
+                            'raised %s' % (name, items, r0[1]), wit)
+                continue
+            base = observe(R, name, r0[1], items, 'factor-base', wit)
+            for k in W4.factors():
+                check_factor(R, name, items, k, base)
+        R.sample(dict(library=name, mapping=[list(i) for i in items],
+                      common_factors=W4.factors()[:6] + ['...']), limit=1)
+
+
+# ------------------------------------- fourth wave: libraries built by hand
+
+def build(route, source):
+    """One library made from `source` (a name load() knows) by `route`."""
+    import pgradd.ThermoChem    # noqa
+    from pgradd.GroupAdd.Library import GroupLibrary
+    src, basis, mat = load(source)
+    if route == 'default':
+        lib = GroupLibrary(src.scheme)
+        lib.Update(src)
+    elif route == 'explicit':
+        lib = GroupLibrary(src.scheme, {}, {})
+        lib.Update(src)
+    elif route == 'ctor':
+        if basis:
+            lib = GroupLibrary(src.scheme, list(src.items()),
+                               dict(src.uq_contents))
+        else:
+            lib = GroupLibrary(src.scheme, list(src.items()))
+    elif route == 'load':
+        if source == 'synplain':
+            lib = _write_and_load(None, None)
+        else:
+            lib = _write_and_load(SYN[source]['basis'], SYN[source]['mat'])
+    else:
+        raise ValueError(route)
+    return lib
+
+
+def hb_mappings(source):
+    src, basis, mat = load(source)
+    names = basis or [str(g) for g in E.with_data(src)]
+    return [[(names[0], 0.217)],
+            [(names[0], 1), (names[1], 2), (names[2], -0.5)]]
+
+
+HB_T = (500.0,)
+
+
+def observe_built(R, lib, source, where, wit):
+    """A library made from `source` has the standard errors of the source's
+    uncertainty data (basis / matrix as read by the harness) - or none at all
+    when the source has none."""
+    src, basis, mat = load(source)
+    for items in hb_mappings(source):
+        R.nontrivial += 1
+        r = E.ev(lib.Estimate, dict(items), 'thermochem')
+        R.evals += 1
+        if r[0] != 'ok':
+            R.outcomes['handbuilt-estimate-raises:' + r[1]] += 1
+            R.violation('handbuilt-estimate-raises:%s:%s' % (
+                'uq' if basis else 'no-uq', r[1]),
+                '%s: [library made from %s] %r: Estimate raised %s' % (
+                    where, source, items, r[1]), wit)
+            continue
+        if basis:
+            observe(R, source, r[1], items, 'handbuilt', wit,
+                    prefix='handbuilt-se-wrong', temps=HB_T)
+            continue
+        for se, _ in GETTERS:
+            got = E.ev(getattr(r[1], se), HB_T[0])
+            R.evals += 1
+            if got[0] == 'ok':
+                R.outcomes['se-without-uncertainty-data'] += 1
+                R.violation('se-without-uncertainty-data:' + se,
+                            '%s: [library made from %s, which has no uncertainty '
+                            'data] %r: %s(%g) = %r' % (where, source, items, se,
+                                                       HB_T[0], got[1]), wit)
+            else:
+                R.outcomes['no-uncertainty-data:se-raises:' + got[1]] += 1
+
+
+def run_history(R, history, earlier=None):
+    """Builds made one after the other in this process; after every build all
+    libraries made so far are observed, at the end also the sources, and a
+    library constructed from nothing.  -> True iff the process still makes
+    clean libraries afterwards."""
+    from pgradd.GroupAdd.Library import GroupLibrary
+    wit = dict(kind='history', history=[list(s) for s in history],
+               earlier=earlier)
+    made = []
+    for n, (route, source) in enumerate(history):
+        where = 'after build %d of %r' % (n + 1, [list(s) for s in history])
+        R.evals += 1
+        r = E.ev(build, route, source)
+        if r[0] != 'ok':
+            R.outcomes['handbuilt-build-raises:' + r[1]] += 1
+            R.violation('handbuilt-build-raises:%s:%s' % (route, r[1]),
+                        '%s: making a library from %s by route %r raised %s'
+                        % (where, source, route, r[1]), wit)
+        else:
+            made.append((r[1], source))
+        for lib, s in made:
+            observe_built(R, lib, s, where, wit)
+    where = 'after %r' % ([list(s) for s in history],)
+    for s in sorted(set(s for _, s in history)):
+        # the loaded source itself, after having been handed to Update()
+        observe_built(R, load(s)[0], s, where + ' (the source)', wit)
+    R.evals += 1
+    bare = GroupLibrary(load(history[-1][1])[0].scheme)
+    sane = not bare.uq_contents
+    if sane:
+        R.outcomes['fresh-library-clean'] += 1
+    else:
+        R.outcomes['fresh-library-carries-uncertainty-data'] += 1
+        R.violation('fresh-library-carries-uncertainty-data',
+                    '%s: GroupLibrary(scheme) - given nothing - carries '
+                    'uncertainty data with keys %r' % (
+                        where, sorted(map(str, bare.uq_contents))), wit)
+    return sane
+
+
+def run_histories(R, i, n, tier):
+    """Runs in an interpreter of its own (see run_histories_isolated)."""
+    taint = None
+    for k, h in enumerate(W4.histories(tier)):
+        if k % n != i:
+            continue
+        sane = run_history(R, h, earlier=taint)
+        if taint is None and not sane:
+            # from here on this process is damaged: later witnesses carry the
+            # history that did it
+            taint = [list(s) for s in h]
+            R.notes.append('hand-built family: a library constructed from '
+                           'nothing stopped being empty after %r' % (taint,))
+        if k < 2:
+            R.sample(dict(history=[list(s) for s in h]), limit=2)
+
+
+def _hist_child(i, n, tier, outpath):
+    R = Result()
+    run_histories(R, i, n, tier)
+    with open(outpath, 'w') as f:
+        json.dump(R.pack(), f, default=str)
+
+
+def run_histories_isolated(R, i, n, tier):
+    """The hand-built family exercises process-wide state (a shared default
+    argument); it gets an interpreter of its own so that the other shards of
+    this worker, whose witnesses are replayed alone, never run in a process a
+    history has damaged."""
+    with tempfile.TemporaryDirectory(prefix='pgv_c20h_') as d:
+        outp = os.path.join(d, 'out.json')
+        p = subprocess.run(
+            [sys.executable, '-c', 'import sys; from mc.props import c20; '
+             'c20._hist_child(int(sys.argv[1]), int(sys.argv[2]), sys.argv[3], '
+             'sys.argv[4])', str(i), str(n), tier, outp], cwd=VERIF,
+            env=dict(os.environ), stdin=subprocess.DEVNULL,
+            stdout=subprocess.PIPE, stderr=subprocess.STDOUT, timeout=3600)
+        if p.returncode != 0 or not os.path.exists(outp):
+            raise RuntimeError('history child %d/%d failed rc=%s: %s' % (
+                i, n, p.returncode, p.stdout.decode(errors='replace')[-800:]))
+        pack = json.load(open(outp))
+    R.evals += pack['evals']
+    R.nontrivial += pack['nontrivial']
+    R.outcomes.update(pack['outcomes'])
+    R.extra.update(pack['extra'])
+    R.violations.extend(pack['violations'])
+    R.samples.extend(pack['samples'])
+    R.notes.extend(pack['notes'][:3])
+
+
 MUT_SHARDS = {n: 2 for n in libs.UQ_LIBS}
+SYNX_FACTOR_SHARDS = 6
+HIST_SHARDS = {'quick': 2, 'thorough': 12}
 
 
 def shards(tier, seed):
@@ -353,11 +694,26 @@ def shards(tier, seed):
         n = MUT_SHARDS.get(name, 1)
         for i in range(n):
             out.append((name, i, n, 'mut'))
+    # fourth wave: the ladder of common factors
+    for name in libs.UQ_LIBS + list(SYN):
+        out.append((name, 0, 1, 'factor'))
+    for i in range(SYNX_FACTOR_SHARDS):
+        out.append(('synx', i, SYNX_FACTOR_SHARDS, 'factor'))
+    # fourth wave: histories of libraries built by hand
+    for i in range(HIST_SHARDS[tier]):
+        out.append(('*', i, HIST_SHARDS[tier], 'history'))
     return out
 
 
 def run_shard(shard, tier):
     R = Result()
+    if len(shard) == 4 and shard[3] == 'factor':
+        name, i, n, _ = shard
+        run_factor(R, W.lib_names()[i::n] if name == 'synx' else [name], tier)
+        return R
+    if len(shard) == 4 and shard[3] == 'history':
+        run_histories_isolated(R, shard[1], shard[2], tier)
+        return R
     if len(shard) == 4:
         name, i, n, _ = shard
         for k, (items, op, timing, other) in enumerate(mut_cases(name)):
@@ -380,14 +736,28 @@ def run_shard(shard, tier):
     return R
 
 
+def _verdict(R):
+    return dict(violates=bool(R.violations),
+                detail='\n'.join(v['msg'] for v in R.violations[:5]) or 'holds')
+
+
 def replay(w):
     R = Result()
+    if w['kind'] == 'history':
+        # the whole history, in this (fresh) process; if an earlier history of
+        # the same walk had already damaged the process, that one first
+        if w.get('earlier'):
+            run_history(Result(), [tuple(s) for s in w['earlier']])
+        run_history(R, [tuple(s) for s in w['history']], earlier=w.get('earlier'))
+        return _verdict(R)
     items = [tuple(i) for i in w['items']]
+    if w['kind'] == 'factor':
+        check_factor(R, w['lib'], items, w['k'])
+        return _verdict(R)
     if w['kind'] == 'mut':
         check_mut(R, w['lib'], items, tuple(w['op']), w['timing'],
                   [tuple(i) for i in w['other']])
-        return dict(violates=bool(R.violations),
-                    detail='\n'.join(v['msg'] for v in R.violations[:5]) or 'holds')
+        return _verdict(R)
     if w['kind'] == 'out':
         lib, basis, mat = load(w['lib'])
         r = E.ev(lib.Estimate, dict(items), 'thermochem')
@@ -395,5 +765,4 @@ def replay(w):
                                   for se, _ in GETTERS)
         return dict(violates=not ok, detail=repr(r[:2]))
     check_family(R, w['lib'], items, 'replay')
-    return dict(violates=bool(R.violations),
-                detail='\n'.join(v['msg'] for v in R.violations[:5]) or 'holds')
+    return _verdict(R)
